@@ -79,48 +79,10 @@ HARNESSES = [
 ]
 
 
-# ----------------------------------------------------------------------------- CrossHair driver
-def _conditions():
-    src = open(os.path.join(ROOT, "crosshair", "c10_ids.py")).read().splitlines()
-    out = []
-    for i, l in enumerate(src):
-        m = re.match(r"def (_\w+)\(", l)
-        if m:
-            out.append((m.group(1), i + 2))
-    return out
-
-
+# ----------------------------------------------------------------------------- CrossHair driver (vlib/chdriver.py)
 def run_crosshair(budget):
-    procs = []
-    env = dict(os.environ)
-    src = os.environ.get("VERIF_REPO_SRC")
-    if src:
-        env["PYTHONPATH"] = src + os.pathsep + env.get("PYTHONPATH", "")
-    for name, line in _conditions():
-        cmd = [os.path.join(ROOT, ".venv", "bin", "crosshair"), "check", "--report_all", "--per_condition_timeout", str(budget),
-               "c10_ids.py:%d" % line]
-        procs.append((name, subprocess.Popen(cmd, cwd=os.path.join(ROOT, "crosshair"), stdout=subprocess.PIPE,
-                                             stderr=subprocess.STDOUT, text=True, env=env), time.time()))
-    res = []
-    for name, p, t0 in procs:
-        try:
-            out, _ = p.communicate(timeout=budget * 3 + 60)
-        except subprocess.TimeoutExpired:
-            p.kill()
-            out = "timeout"
-        verdict, cex = "inconclusive", None
-        if "Confirmed over all paths" in out:
-            verdict = "confirmed-over-all-paths"
-        elif "Not confirmed" in out:
-            verdict = "no-counterexample-within-budget"
-        elif "Unable to meet precondition" in out:
-            verdict = "unable-to-meet-precondition"
-        m = re.search(r"error: .*? when calling (\w+)\((.*?)\)(?: \(which|$)", out, re.M)
-        if m:
-            verdict, cex = "counterexample", m.group(2)
-        res.append(dict(condition=name, verdict=verdict, counterexample=cex, wall_s=round(time.time() - t0, 1),
-                        output=out.strip()[-300:]))
-    return res
+    from vlib import chdriver
+    return chdriver.run("c10_ids.py", budget)
 
 
 def _replay_cex(cond, cex):
